@@ -1,5 +1,6 @@
 import SnootyVerif.Drv.Util
 import SnootyVerif.Model.Subst
+import SnootyVerif.Model.SubstCtx
 open Lean
 namespace SnootyVerif.Drv.C07
 open SnootyVerif.Drv SnootyVerif.Subst
@@ -73,6 +74,37 @@ def static (j : Json) : Except String Json := do
           | .unresolved _ l => Json.arr #["unresolved", l])).toArray)]))
   pure (Json.mkObj [("uses", Json.arr out.toArray)])
 
-def ops : List (String × (Json → Except String Json)) := [("c07.page", page), ("c07.consts", consts), ("c07.static", static)]
+/-! context adaptation: nodes are `{"k": "inl"|"blk", "id": n}` or `{"k": "para", "id": n, "c": [...]}` -/
+open SnootyVerif.SubstCtx in
+partial def ctxNode (j : Json) : Except String Node := do
+  let id ← nat j "id"
+  match ← str j "k" with
+  | "inl" => pure (.inl id)
+  | "blk" => pure (.blk id)
+  | "para" => pure (.para id (← (← arr j "c").toList.mapM ctxNode))
+  | k => throw s!"bad node kind {k}"
+
+open SnootyVerif.SubstCtx in
+partial def ctxJson : Node → Json
+  | .inl i => Json.mkObj [("k", "inl"), ("id", i)]
+  | .blk i => Json.mkObj [("k", "blk"), ("id", i)]
+  | .para i cs => Json.mkObj [("k", "para"), ("id", i), ("c", Json.arr (cs.map ctxJson).toArray)]
+  | .wrap cs => Json.mkObj [("k", "wrap"), ("c", Json.arr (cs.map ctxJson).toArray)]
+
+open SnootyVerif.SubstCtx in
+def ctx (j : Json) : Except String Json := do
+  let ns ← (← arr j "nodes").toList.mapM ctxNode
+  let ex := match extractInline ns with
+    | .error _ => Json.mkObj [("exc", "IndexError")]
+    | .ok none => Json.mkObj [("none", true)]
+    | .ok (some cs) => Json.mkObj [("nodes", Json.arr (cs.map ctxJson).toArray)]
+  let si := match searchInline ns with
+    | .error _ => Json.mkObj [("exc", "IndexError")]
+    | .ok .invalidContext => Json.mkObj [("invalid", true)]
+    | .ok (.children cs) => Json.mkObj [("nodes", Json.arr (cs.map ctxJson).toArray)]
+  pure (Json.mkObj [("extract", ex), ("inline", si), ("block", Json.arr ((searchBlock ns).map ctxJson).toArray)])
+
+def ops : List (String × (Json → Except String Json)) :=
+  [("c07.page", page), ("c07.consts", consts), ("c07.static", static), ("c07.ctx", ctx)]
 
 end SnootyVerif.Drv.C07
